@@ -44,7 +44,7 @@ def zero_split(prog, R, fn):
     def pred(o):
         if o.kind != "call" or not (o.data.get("callee") or "").endswith("::is_zero"):
             return False
-        a = origins(prog, fn, o.data["args"][0])
+        a = origins(prog, fn, o.data["args"][0], at=o.block)
         return bool(a) and all(is_call_to(prog, fn, x, ext) for x in a)
     return find_bool_split(prog, fn, pred)
 
@@ -111,12 +111,12 @@ def check(ctx):
                       where=where(fopen, b))
             # signature parameter is passed on unchanged
             t = fopen.term(b)
-            o = origins(prog, fopen, t["args"][1])
+            o = origins(prog, fopen, t["args"][1], at=b)
             ctx.check(all(x.kind == "param" and x.data == 3 for x in o) and o, "sig-forwarded", kind + ":check",
                       "the signature given to the header check of the %s file is not the open routine's signature parameter (%s)" % (kind, o),
                       where=where(fopen, b))
         for b, t in calls_to(prog, fopen, target_fn=finit):
-            o = origins(prog, fopen, t["args"][1])
+            o = origins(prog, fopen, t["args"][1], at=b)
             ctx.check(all(x.kind == "param" and x.data == 3 for x in o) and o, "sig-forwarded", kind + ":init",
                       "the signature written into a new %s file is not the open routine's signature parameter (%s)" % (kind, o),
                       where=where(fopen, b))
@@ -129,7 +129,7 @@ def check(ctx):
         wa = calls_to(prog, finit, callee="std::io::Write::write_all")
         wa.sort(key=lambda x: len(finit.dominators().get(x[0], ())))
         if wa:
-            o = origins(prog, finit, wa[0][1]["args"][1])
+            o = origins(prog, finit, wa[0][1]["args"][1], at=wa[0][0])
             c = const_origin(o)
             if isinstance(c, (bytes, tuple)):
                 first_magic = bytes(c)
@@ -191,7 +191,7 @@ def check(ctx):
             ctx.check(len(sites) == 1, "sig-origin", kind + ":site", "expected exactly one call of %s in the map open, found %d" % (fopen.name, len(sites)),
                       where=where(inner_open))
             for b, t in sites:
-                o = origins(prog, inner_open, t["args"][2])
+                o = origins(prog, inner_open, t["args"][2], at=b)
                 good = bool(o) and all(x.kind == "call" and x.data.get("callee") == "abyssiniandb::DbMapKeyType::signature"
                                        and x.data.get("gargs") == ["KT"] for x in o)
                 n_sig += 1 if good else 0
